@@ -11,7 +11,7 @@ Definition nh_is_some {A} (o : option A) : bool := match o with Some _ => true |
 (* the reflective obligation over today's generated tables, swap guards, clamps and port test *)
 Definition nh_today_ok : bool :=
   nh_is_some nh_today_opt && nh_data_ok nh_today && nh_today_source_as_modelled && nh_today_xtcp_registration_sync &&
-  nh_today_tr_send_blocking.
+  nh_today_tr_send_blocking && nh_today_ctl_registration_in_read_loop && nh_today_sid_codec_symmetric.
 
 Definition nh_rule_prop (mode : Z) (c v : nh_feature) (cr vr : nh_role) : Prop :=
   (mode = 1 -> nf_nat c = NhHard \/ nf_nat v = NhHard ->
